@@ -129,8 +129,8 @@ example : (⟨[], [1, 2, 3], [2, 0], true, .failOnce⟩ : Reader).term.fails = t
     message of any length — truncated to its bare header decrypts to the empty stream with a clean
     EOF: the header alone *is* the encoding of the empty message. -/
 theorem header_only_accepted (c : Crypto) (cd : Codec) (P : EncParams) (pwf : P.WF)
-    (hmac : ∀ k msg, c.hmac k msg ≠ []) (lcd : cd.Lawful P) (fk : Bytes) (hfk : fk.length = P.fkLen)
-    (m : Manifest) (hm : m.valid P = true) (p : Bytes) (o : DecryptOpts)
+    (hmac : ∀ k msg, c.hmac k msg ≠ []) (fk : Bytes) (hfk : fk.length = P.fkLen)
+    (m : Manifest) (lcd : cd.LawfulFor m) (hm : m.valid P = true) (p : Bytes) (o : DecryptOpts)
     (hkn : o.keyName ≠ [] ∨ m.keyName ≠ []) (hunwrap : ∀ kn, o.unwrap m kn = fk)
     (hhdr : (signHeader c cd P fk (cd.render m)).length ≤ P.hdrMax)
     (r : Reader) (heof : r.term = .eof)
@@ -140,7 +140,7 @@ theorem header_only_accepted (c : Crypto) (cd : Codec) (P : EncParams) (pwf : P.
       = signHeader c cd P fk (cd.render m) ++ [] := by
     rw [specEncrypt_eq, ← signHeader_eq, List.take_left', List.append_nil]; rfl
   rw [hcut] at hstream
-  obtain ⟨r', hrs, hrt, hdec⟩ := decrypt_of_honest_header true c cd P pwf hmac lcd fk hfk m hm o hkn hunwrap [] r heof hhdr hstream
+  obtain ⟨r', hrs, hrt, hdec⟩ := decrypt_of_honest_header true c cd P pwf hmac fk hfk m lcd hm o hkn hunwrap [] r heof hhdr hstream
   unfold decryptImpl
   have hpos : 0 < P.segSize + P.overhead := by have := pwf.seg_pos; omega
   rw [hdec, processSegments_nil _ _ hpos _ r' hrt hrs]
@@ -295,7 +295,8 @@ def witnessReader : Reader :=
 theorem witness_decrypts_to_empty :
     decryptImpl Toy.toyCrypto Toy.toyCodec EncParams.generated witnessOpts witnessReader = ([], .ok) := by
   apply header_only_accepted Toy.toyCrypto Toy.toyCodec EncParams.generated C02.generated_wf
-    Toy.toyCrypto_lawful.hmac_ne (Toy.toyCodec_lawful _) witnessFk (by decide) witnessManifest (by decide) [42]
+    Toy.toyCrypto_lawful.hmac_ne witnessFk (by decide) witnessManifest
+    ((Toy.toyCodec_lawful EncParams.generated).for witnessManifest (by decide)) (by decide) [42]
     witnessOpts (Or.inr (by decide)) (fun _ => rfl) ?_ witnessReader rfl rfl
   simp only [signHeader, headerMessage, List.length_append, List.length_cons, List.length_nil]
   decide
@@ -316,7 +317,7 @@ theorem witness_noForgery :
   rw [signHeader_eq] at hcut hhdr
   obtain ⟨r0, hrh, hrs, hrt⟩ := readHeader_complete true EncParams.generated _ _ []
     (header_wf Toy.toyCrypto Toy.toyCodec EncParams.generated C02.generated_wf Toy.toyCrypto_lawful.hmac_ne
-      (Toy.toyCodec_lawful _) witnessFk witnessManifest) hhdr witnessReader rfl hcut
+      witnessFk witnessManifest ((Toy.toyCodec_lawful EncParams.generated).for witnessManifest (by decide))) hhdr witnessReader rfl hcut
   constructor
   · intro ml cl r' m' kn h hp _
     have h' : readHeaderWith true EncParams.generated witnessReader = .ok (ml, cl, r') := h
